@@ -793,7 +793,7 @@ impl Prop for C16 {
     "case = random small index (text/keyword/numeric/nested schema, 0-3 commits, deletions, in-memory or filesystem) + 8-12 requests of one stream: structured random requests (all query node types, filters, sorts, 20 aggregation shapes incl. pipelines, highlight, collapse, suggest, rescore, fuzzy, huge numbers, regex/wildcard metacharacters, deep trees, scripts), tree- and character-level mutations of such requests (multi-byte characters, extreme numbers, truncation, deep nesting), cursor strings (real next_cursor, edited, random hex, odd lengths, non-ASCII at even/odd offsets) on score and field sorts, script_score scripts from an expression grammar plus malformed variants, minimum_should_match specs, and planner-class queries with repeated terms; every request runs in its own thread under catch_unwind with a 5 s watchdog, debug assertions on. A request is non-trivial when it deserialises and reaches IndexReader::search (distinct by index+request JSON). Exploration, not proof: the blanket claim rests on this stream."
   }
   fn count(&self, tier: Tier) -> usize {
-    tier.pick(540, 24_000)
+    tier.pick(900, 24_000)
   }
   fn gen(&self, rng: &mut Rng, _tier: Tier, i: usize) -> Value {
     // VERIF_C16_ONLY=isolated: exploration knob (every case from the isolated stream)
